@@ -145,7 +145,8 @@ func (m *Model) PullPositions(ctx context.Context, ops ...resource.ReadOption) <
 			positions.Preset, _ = m.presetForValue(positions.States)
 
 			// projection and filtering
-			responseFilter.Filter(positions)
+			// positions.Preset is the model's own preset descriptor: filter a copy, not the original
+			positions = responseFilter.FilterClone(positions).(*traits.OpenClosePositions)
 			if eq(last, positions) {
 				continue
 			}
